@@ -1083,18 +1083,17 @@ impl Server {
                     }
                 }
                 
+                // Check if we should queue the command: inside MULTI everything but the transaction
+                // control commands is queued, the connection-level commands below included
+                if in_transaction && transactions::should_queue_command(&command) {
+                    return self.connections.with_connection(conn_id, |conn| {
+                        transactions::queue_command(conn, parts.to_vec())
+                    }).unwrap_or_else(|| Ok(RespFrame::error("ERR connection not found")));
+                }
+                
                 // Special handling for MONITOR command
                 if command.as_str() == "MONITOR" {
-                    if parts.len() != 1 {
-                        return Ok(RespFrame::error("ERR wrong number of arguments for 'monitor' command"));
-                    }
-                    
-                    self.monitor_subscribers.subscribe(conn_id)?;
-                    self.connections.with_connection(conn_id, |conn| {
-                        conn.is_monitoring = true;
-                    });
-                    
-                    return Ok(RespFrame::ok());
+                    return self.handle_monitor(parts, conn_id);
                 }
                 
                 // Handle transaction control commands and connection-specific commands
@@ -1123,10 +1122,10 @@ impl Server {
                         }).unwrap_or_else(|| Ok(RespFrame::error("ERR connection not found")));
                     }
                     "PUBLISH" => return self.handle_publish(parts),
-                    "SUBSCRIBE" => return self.handle_subscribe(parts, conn_id),
-                    "UNSUBSCRIBE" => return self.handle_unsubscribe(parts, conn_id),
-                    "PSUBSCRIBE" => return self.handle_psubscribe(parts, conn_id),
-                    "PUNSUBSCRIBE" => return self.handle_punsubscribe(parts, conn_id),
+                    "SUBSCRIBE" => return self.send_confirmations(conn_id, self.handle_subscribe(parts, conn_id)?),
+                    "UNSUBSCRIBE" => return self.send_confirmations(conn_id, self.handle_unsubscribe(parts, conn_id)?),
+                    "PSUBSCRIBE" => return self.send_confirmations(conn_id, self.handle_psubscribe(parts, conn_id)?),
+                    "PUNSUBSCRIBE" => return self.send_confirmations(conn_id, self.handle_punsubscribe(parts, conn_id)?),
                     "AUTH" => return self.handle_auth(parts, conn_id), // Handle AUTH after authentication too
                     _ => {}
                 }
@@ -1139,13 +1138,6 @@ impl Server {
                         }).unwrap_or_else(|| Ok(RespFrame::error("ERR connection not found")));
                     }
                     _ => {}
-                }
-                
-                // Check if we should queue the command
-                if in_transaction && transactions::should_queue_command(&command) {
-                    return self.connections.with_connection(conn_id, |conn| {
-                        transactions::queue_command(conn, parts.to_vec())
-                    }).unwrap_or_else(|| Ok(RespFrame::error("ERR connection not found")));
                 }
                 
                 // Process normal command
@@ -1275,9 +1267,26 @@ impl Server {
                     }
                     reply
                 }
+                // So do the other connection-level commands, which process_frame handles itself
+                // outside a transaction
+                "PUBLISH" => self.handle_publish(cmd_parts),
+                "SUBSCRIBE" => self.handle_subscribe(cmd_parts, conn_id),
+                "UNSUBSCRIBE" => self.handle_unsubscribe(cmd_parts, conn_id),
+                "PSUBSCRIBE" => self.handle_psubscribe(cmd_parts, conn_id),
+                "PUNSUBSCRIBE" => self.handle_punsubscribe(cmd_parts, conn_id),
+                "AUTH" => self.handle_auth(cmd_parts, conn_id),
+                "MONITOR" => self.handle_monitor(cmd_parts, conn_id),
+                "REPLCONF" => self.connections.with_connection(conn_id, |conn| {
+                    crate::replication::commands::handle_replconf(cmd_parts, conn, &self.replication)
+                }).unwrap_or_else(|| Ok(RespFrame::error("ERR connection not found"))),
                 _ => self.process_command_parts(&cmd_parts, db_index),
             };
             match outcome {
+                // The confirmations of a queued (P)SUBSCRIBE/(P)UNSUBSCRIBE are part of the EXEC reply
+                Ok(RespFrame::Array(Some(confirmations)))
+                    if matches!(name.as_str(), "SUBSCRIBE" | "UNSUBSCRIBE" | "PSUBSCRIBE" | "PUNSUBSCRIBE") => {
+                    results.extend(confirmations);
+                }
                 Ok(response) => results.push(response),
                 Err(e) => {
                     results.push(Self::error_to_reply(&e));
@@ -1751,6 +1760,41 @@ impl Server {
 
 
 
+    /// Handle MONITOR command
+    fn handle_monitor(&self, parts: &[RespFrame], conn_id: u64) -> Result<RespFrame> {
+        if parts.len() != 1 {
+            return Ok(RespFrame::error("ERR wrong number of arguments for 'monitor' command"));
+        }
+        
+        self.monitor_subscribers.subscribe(conn_id)?;
+        self.connections.with_connection(conn_id, |conn| {
+            conn.is_monitoring = true;
+        });
+        
+        Ok(RespFrame::ok())
+    }
+    
+    /// Send the confirmations of a (P)SUBSCRIBE/(P)UNSUBSCRIBE (the array its handler returned)
+    /// to the connection, each as a frame of its own; an error reply is passed on as it is
+    fn send_confirmations(&self, conn_id: u64, reply: RespFrame) -> Result<RespFrame> {
+        let confirmations = match reply {
+            RespFrame::Array(Some(confirmations)) => confirmations,
+            other => return Ok(other),
+        };
+        
+        // Send the confirmations atomically
+        self.connections.with_connection(conn_id, |conn| -> Result<()> {
+            for response in &confirmations {
+                conn.send_frame(response)?;
+            }
+            conn.flush()?; // Single flush for all confirmations
+            Ok(())
+        });
+        
+        // Return NoResponse to prevent double response transmission
+        Ok(RespFrame::NoResponse)
+    }
+    
     /// Handle PUBLISH command
     fn handle_publish(&self, parts: &[RespFrame]) -> Result<RespFrame> {
         if parts.len() != 3 {
@@ -1806,22 +1850,13 @@ impl Server {
         
         let results = self.pubsub.subscribe(conn_id, channels)?;
         
-        // Send each subscription confirmation atomically
-        self.connections.with_connection(conn_id, |conn| -> Result<()> {
-            for result in results {
-                match result.subscription {
-                    crate::pubsub::Subscription::Channel(ch) => {
-                        let response = format_subscribe_response(&ch, result.num_subscriptions);
-                        conn.send_frame(&response)?;
-                    }
-                    _ => unreachable!(),
-                }
-            }
-            conn.flush()?; // Single flush for all confirmations
-            Ok(())
-        });
+        // One confirmation per channel, for the caller to deliver
+        let confirmations = results.into_iter().map(|result| match result.subscription {
+            crate::pubsub::Subscription::Channel(ch) => format_subscribe_response(&ch, result.num_subscriptions),
+            _ => unreachable!(),
+        }).collect();
         
-        Ok(RespFrame::NoResponse)
+        Ok(RespFrame::Array(Some(confirmations)))
     }
     
     /// Handle UNSUBSCRIBE command
@@ -1854,33 +1889,16 @@ impl Server {
                     RespFrame::Integer(remaining as i64),
                 ]))],
             };
-            self.connections.with_connection(conn_id, |conn| -> Result<()> {
-                for response in &confirmations {
-                    conn.send_frame(response)?;
-                }
-                conn.flush()?;
-                Ok(())
-            });
-            return Ok(RespFrame::NoResponse);
+            return Ok(RespFrame::Array(Some(confirmations)));
         }
         
-        // Send each unsubscription confirmation atomically
-        self.connections.with_connection(conn_id, |conn| -> Result<()> {
-            for result in results {
-                match result.subscription {
-                    crate::pubsub::Subscription::Channel(ch) => {
-                        let response = format_unsubscribe_response(&ch, result.num_subscriptions);
-                        conn.send_frame(&response)?;
-                    }
-                    _ => unreachable!(),
-                }
-            }
-            conn.flush()?; // Single flush for all confirmations
-            Ok(())
-        });
+        // One confirmation per channel, for the caller to deliver
+        let confirmations = results.into_iter().map(|result| match result.subscription {
+            crate::pubsub::Subscription::Channel(ch) => format_unsubscribe_response(&ch, result.num_subscriptions),
+            _ => unreachable!(),
+        }).collect();
         
-        // Return NoResponse to prevent double response transmission
-        Ok(RespFrame::NoResponse)
+        Ok(RespFrame::Array(Some(confirmations)))
     }
     
     /// Handle PSUBSCRIBE command
@@ -1899,22 +1917,13 @@ impl Server {
         
         let results = self.pubsub.psubscribe(conn_id, patterns)?;
         
-        // Send each subscription confirmation atomically
-        self.connections.with_connection(conn_id, |conn| -> Result<()> {
-            for result in results {
-                match result.subscription {
-                    crate::pubsub::Subscription::Pattern(pat) => {
-                        let response = format_psubscribe_response(&pat, result.num_subscriptions);
-                        conn.send_frame(&response)?;
-                    }
-                    _ => unreachable!(),
-                }
-            }
-            conn.flush()?; // Single flush for all confirmations
-            Ok(())
-        });
+        // One confirmation per pattern, for the caller to deliver
+        let confirmations = results.into_iter().map(|result| match result.subscription {
+            crate::pubsub::Subscription::Pattern(pat) => format_psubscribe_response(&pat, result.num_subscriptions),
+            _ => unreachable!(),
+        }).collect();
         
-        Ok(RespFrame::NoResponse)
+        Ok(RespFrame::Array(Some(confirmations)))
     }
     
     /// Handle PUNSUBSCRIBE command
@@ -1947,32 +1956,16 @@ impl Server {
                     RespFrame::Integer(remaining as i64),
                 ]))],
             };
-            self.connections.with_connection(conn_id, |conn| -> Result<()> {
-                for response in &confirmations {
-                    conn.send_frame(response)?;
-                }
-                conn.flush()?;
-                Ok(())
-            });
-            return Ok(RespFrame::NoResponse);
+            return Ok(RespFrame::Array(Some(confirmations)));
         }
         
-        // Send each unsubscription confirmation atomically
-        self.connections.with_connection(conn_id, |conn| -> Result<()> {
-            for result in results {
-                match result.subscription {
-                    crate::pubsub::Subscription::Pattern(pat) => {
-                        let response = format_punsubscribe_response(&pat, result.num_subscriptions);
-                        conn.send_frame(&response)?;
-                    }
-                    _ => unreachable!(),
-                }
-            }
-            conn.flush()?; // Single flush for all confirmations
-            Ok(())
-        });
+        // One confirmation per pattern, for the caller to deliver
+        let confirmations = results.into_iter().map(|result| match result.subscription {
+            crate::pubsub::Subscription::Pattern(pat) => format_punsubscribe_response(&pat, result.num_subscriptions),
+            _ => unreachable!(),
+        }).collect();
         
-        Ok(RespFrame::NoResponse)
+        Ok(RespFrame::Array(Some(confirmations)))
     }
 
     /// Handle SAVE command
